@@ -199,7 +199,7 @@ def _flip(arr):
 
 
 def mutate(x):
-    """change everything that can be changed through the public interface; failures are irrelevant"""
+    """change everything that can be changed through the public interface; returns, per attempt, whether it was accepted"""
     from nitypes.waveform import ExtendedPropertyDictionary, Timing, DigitalWaveformSignal
     import nitypes.bintime as bt
     from nitypes.scalar import Scalar
@@ -207,13 +207,16 @@ def mutate(x):
     from nitypes.xy_data import XYData
     import numpy as np
 
+    accepted = []
+
     def attempt(f):
         try:
             with warnings.catch_warnings():
                 warnings.simplefilter("ignore")
                 f()
+            accepted.append(True)
         except Exception:
-            pass
+            accepted.append(False)
 
     def props(d):
         for k in list(d)[:1]:
@@ -267,6 +270,7 @@ def mutate(x):
             attempt(lambda: setattr(x, "scale_mode", LinearScaleMode(9.0, 9.0)))
         if k == "S":
             attempt(lambda: setattr(x, "start_frequency", 123.0))
+    return accepted
 
 
 def probe(x, m, obs=generic_obs):
@@ -274,12 +278,15 @@ def probe(x, m, obs=generic_obs):
     c = dup(x, m)
     o1, oc = obs(x), obs(c)
     flags = [bool(c == x), bool(x == c), type(c) is type(x), not bool(c != x)]
-    mutate(c)
+    acc_copy = mutate(c)
     o2 = obs(x)
     c2 = dup(x, m)
     oc2 = obs(c2)
-    mutate(x)
+    acc_orig = mutate(x)
     oc3 = obs(c2)
+    # the copy is as usable as the original: whatever change the original accepts, its copy accepts too (a copy may
+    # accept more: it owns its memory where the original may have borrowed it)
+    flags.append(len(acc_copy) == len(acc_orig) and all(a or not b for a, b in zip(acc_copy, acc_orig)))
     return {"orig": o1, "copy": oc, "orig_after": o2, "copy2": oc2, "copy2_after": oc3, "flags": flags}
 
 
@@ -343,6 +350,11 @@ def build_direct(d):
         for i in d.get("read_names", []):
             if i < w.signal_count:
                 w.signals[i].name
+    if kind == "D":
+        # names assigned one signal at a time, with the padding and separators a caller may type
+        for i, v in d.get("set_names", []):
+            if i < w.signal_count:
+                w.signals[i].name = v
     return w
 
 
@@ -610,6 +622,9 @@ def _direct_desc(rng, kind=None):
         k = rng.choice([0, 1, max(ncols - 1, 0), ncols, ncols, ncols + 2])
         d["names"] = rng.choice([", ", ",", " , "]).join(rng.choice(["a", "b", "clk", " d ", "", "p0"]) + str(j) for j in range(k))
         d["read_names"] = [rng.randrange(0, 4) for _ in range(rng.choice([0, 0, 1, 2]))]
+    if kind == "D" and rng.random() < 0.4:
+        d["set_names"] = [[rng.randrange(0, 4), rng.choice([" clk ", "a", "x y", " lead", "trail ", "", "\tt", "p,q", "q , r"])]
+                          for _ in range(rng.choice([1, 1, 2, 3]))]
     return d
 
 
